@@ -837,6 +837,7 @@ type Loc struct {
 	Lo   string   // elems: absolute lower bound (inclusive) or ""
 	Hi   string   // elems: absolute upper bound (exclusive)
 	In   func(r string) string // fieldset: membership condition on the object reference
+	inner string               // whole: kind of the wrapped designator
 }
 
 // refIn: condition under which object reference r is covered by a field(-set) location.
@@ -850,7 +851,40 @@ func (l Loc) refIn(r string) string {
 // evalLoc resolves a modifies designator in the given environment.
 func (c *Ctx) evalLoc(env *Env, e Expr) []Loc {
 	switch x := e.(type) {
+	case *EQuant:
+		// forall v T :: cond ==> designator  — the designated locations for every v satisfying cond
+		imp, ok := x.Body.(*EBin)
+		if !x.Forall || !ok || imp.Op != "==>" || len(x.Vars) != 1 {
+			c.fail("modifies: quantified designator must be 'forall v T :: cond ==> designator'")
+		}
+		rt := c.resolveType(env.pkg, x.Vars[0].T)
+		sort := c.sortOfRT(rt)
+		c.nsym++
+		bv := fmt.Sprintf("%s!q%d", x.Vars[0].Name, c.nsym)
+		sub := env.with(map[string]Val{x.Vars[0].Name: {T: rt.Go, ST: rt.S, L: []string{bv}}})
+		cond := sub.evalBool(imp.X)
+		var out []Loc
+		for _, l := range c.evalLoc(sub, imp.Y) {
+			inner := l
+			switch inner.Kind {
+			case "field", "map", "fieldset":
+			default:
+				c.fail("modifies: quantified designator over %s locations is not supported", inner.Kind)
+			}
+			out = append(out, Loc{Kind: "fieldset", Keys: inner.Keys, In: func(r string) string {
+				return fmt.Sprintf("(exists ((%s %s)) (and %s %s))", bv, sort, cond, inner.refIn(r))
+			}})
+		}
+		return out
 	case *ECall:
+		if x.Fun == "whole" && len(x.Args) == 1 {
+			// whole(designator): the components the designator lives in, for every object (coarse frame)
+			var out []Loc
+			for _, l := range c.evalLoc(env, x.Args[0]) {
+				out = append(out, Loc{Kind: "whole", Keys: l.Keys, inner: l.Kind})
+			}
+			return out
+		}
 		if x.Fun == "chans" && len(x.Args) == 1 {
 			// every channel stored as a value of the given map
 			mv := env.eval(x.Args[0])
@@ -1094,6 +1128,18 @@ func (c *Ctx) havocLoc(st *State, loc Loc) {
 			}
 			// a designator that evaluates to nil denotes no location
 			c.setComp(st, k.Path, sort, tStore(cur, loc.Ref, tIte(tEq(loc.Ref, "null"), tSel(cur, loc.Ref), nv)))
+		}
+	case "whole":
+		for _, k := range loc.Keys {
+			sort := arrSort(SRef, k.Sort)
+			if loc.inner == "elems" {
+				sort = arrSort(SRef, arrSort(bvSort(64), k.Sort))
+			}
+			if loc.inner == "ghost" {
+				sort = k.Sort
+			}
+			c.compSort[k.Path] = sort
+			st.heap[k.Path] = c.freshComp(k.Path, sort)
 		}
 	case "fieldset":
 		for _, k := range loc.Keys {
@@ -1472,7 +1518,23 @@ func (c *Ctx) specType(e Expr, tenv map[string]types.Type, pkg *types.Package) t
 
 func (c *Ctx) locWrites(e Expr, tenv map[string]types.Type, pkg *types.Package, out *WS) {
 	switch x := e.(type) {
+	case *EQuant:
+		if imp, ok := x.Body.(*EBin); ok && imp.Op == "==>" && len(x.Vars) == 1 {
+			t2 := map[string]types.Type{}
+			for k, v := range tenv {
+				t2[k] = v
+			}
+			if rt := c.resolveType(pkg, x.Vars[0].T); rt.Go != nil {
+				t2[x.Vars[0].Name] = rt.Go
+			}
+			c.locWrites(imp.Y, t2, pkg, out)
+			return
+		}
 	case *ECall:
+		if x.Fun == "whole" && len(x.Args) == 1 {
+			c.locWrites(x.Args[0], tenv, pkg, out)
+			return
+		}
 		if x.Fun == "chans" && len(x.Args) == 1 {
 			c.wsChan(out)
 			if mt := c.specType(x.Args[0], tenv, pkg); mt != nil {
@@ -1830,6 +1892,11 @@ func (c *Ctx) frameGoal(key, alloc string, locs []Loc, v1, v0 string) string {
 }
 
 func (c *Ctx) frameBody(key, alloc string, locs []Loc, v1, v0, r, i string, quant bool) string {
+	for _, l := range locs {
+		if l.Kind == "whole" {
+			return "true"
+		}
+	}
 	switch {
 	case strings.HasPrefix(key, "G|") || strings.HasPrefix(key, "GL|"):
 		if len(locs) > 0 {
